@@ -111,12 +111,18 @@ def run_guarded(mod, params):
     import signal
     limit = getattr(mod, "CASE_WALL_S", 30)
 
+    active = [True]
+
     def _alarm(signum, frame):
-        raise CaseTimeout()
+        if active[0]:
+            raise CaseTimeout()
     old_h = signal.signal(signal.SIGALRM, _alarm)
     signal.setitimer(signal.ITIMER_REAL, limit, 2.0)
     try:
-        res = mod.run_case(params)
+        try:
+            res = mod.run_case(params)
+        finally:
+            active[0] = False
         if not isinstance(res, CaseResult):
             raise TypeError("run_case returned %r" % (res,))
         return res, None
